@@ -280,9 +280,16 @@ func c14Stress(t *testing.T, viaAPI bool) {
 					now.Add(-time.Minute).UTC().Format(time.RFC3339Nano), now.Add(e).UTC().Format(time.RFC3339Nano))
 				req := httptest.NewRequest(http.MethodPost, "/api/v2/alerts", strings.NewReader(body))
 				req.Header.Set("Content-Type", "application/json")
+				if i%3 == 2 {
+					// a client that went away once its request was sent: the request context is already cancelled
+					// when the handler runs; an update the provider stores must still reach the groups
+					cctx, ccancel := context.WithCancel(context.Background())
+					ccancel()
+					req = req.WithContext(cctx)
+				}
 				rec := httptest.NewRecorder()
 				api.Handler.ServeHTTP(rec, req)
-				if rec.Code != http.StatusOK {
+				if rec.Code != http.StatusOK && i%3 != 2 {
 					t.Fatalf("POST /alerts: %d %s", rec.Code, rec.Body.String())
 				}
 				continue
@@ -296,6 +303,7 @@ func c14Stress(t *testing.T, viaAPI bool) {
 	}
 	deadline := time.Now().Add(60 * time.Second)
 	var stale []string
+	lastHeld, lastProgress, missing := -1, time.Now(), 0
 	for {
 		stale = stale[:0]
 		held := 0
@@ -315,8 +323,17 @@ func c14Stress(t *testing.T, viaAPI bool) {
 		if held == n && len(stale) == 0 {
 			break
 		}
+		if held > lastHeld {
+			lastHeld, lastProgress = held, time.Now()
+		}
 		if time.Now().After(deadline) {
-			if held != n {
+			if held != n && len(stale) == 0 {
+				// every submission was stored by the provider (Get finds it); a dispatcher that has made no progress
+				// for a while is not catching up, it never received the update
+				if time.Since(lastProgress) > 20*time.Second {
+					missing = n - held
+					break
+				}
 				t.Skipf("inconclusive: dispatcher did not catch up in 60 s (%d of %d alerts held)", held, n)
 			}
 			break
@@ -324,6 +341,11 @@ func c14Stress(t *testing.T, viaAPI bool) {
 		time.Sleep(50 * time.Millisecond)
 	}
 	m.Set("pairs", n)
+	if missing > 0 {
+		m.Violation(t, map[string]any{"pairs": n, "missing": missing},
+			pbt.V("update-never-reached-a-group", "%d of %d alerts are stored by the provider but held by no aggregation group, and the dispatcher has been idle for more than 20 s", missing, n))
+		return
+	}
 	if len(stale) > 0 {
 		m.Violation(t, map[string]any{"pairs": n, "stale": len(stale), "first": stale[0]},
 			pbt.V("stale-version-in-group", "%d of %d alerts: the aggregation group holds the older of two back-to-back versions, e.g. %s", len(stale), n, stale[0]))
@@ -333,16 +355,25 @@ func c14Stress(t *testing.T, viaAPI bool) {
 // C14Schedule: the E4 schedules of C06Schedule (group creators, the maintenance sweep and flush completion parked and
 // released at the hook points) judged for C14's clause "a resolve-then-fire is never dropped from its group": after
 // everything was released every firing alert of the provider is held by exactly one live group and gets notified.
+func init() {
+	// F24: a worker carrying an older (firing) version is overtaken by the one carrying the newer (resolved) version,
+	// whose group flushes, empties and is destroyed; the late worker then builds a new, regular group from the stale
+	// version, which notifies it as firing until its stale end time.
+	pbt.RegisterSignature("c14-stale-version-recreates-group", func(v pbt.Violation) bool {
+		return v.Kind == "stale-firing-notification" && v.Facts["older_version_listed"] == true && v.Facts["holding_group_listed"] == true
+	})
+}
+
 func TestC14Schedule(t *testing.T) {
 	pbt.Run(t, pbt.Spec[c06Scenario]{
 		Property: "C14", Name: "C14Schedule",
-		Rule: "the scenarios of C06Schedule (fire / resolve / re-fire of up to four label sets put without waiting; dispatcher goroutines parked at group.loaded / group.created / maint.destroyed / maint.deleted / flush.notified and released in a generated order). Judged here: after draining, the last submitted firing version of every alert is held by exactly one live aggregation group and is notified (kinds alert-not-in-one-group, group-without-running-timer). Non-trivial: two goroutines were inside groupAlert for creation at once.",
+		Rule: "the scenarios of C06Schedule (fire / resolve / re-fire of up to four label sets put without waiting; dispatcher goroutines parked at group.loaded / group.created / maint.destroyed / maint.deleted / flush.notified and released in a generated order). Judged here: after draining, the last submitted firing version of every alert is held by exactly one live aggregation group and is notified, and no notification made after that lists as firing an alert whose last submitted version ended more than group_interval earlier (kinds alert-not-in-one-group, group-without-running-timer, stale-firing-notification). Non-trivial: two goroutines were inside groupAlert for creation at once.",
 		Gen:  genC06,
 		Exec: func(sc c06Scenario) pbt.Result {
 			res := execC06(sc)
 			kept := res.Violations[:0]
 			for _, v := range res.Violations {
-				if v.Kind == "alert-not-in-one-group" || v.Kind == "group-without-running-timer" || v.Kind == "harness" {
+				if v.Kind == "alert-not-in-one-group" || v.Kind == "group-without-running-timer" || v.Kind == "stale-firing-notification" || v.Kind == "harness" {
 					kept = append(kept, v)
 				}
 			}
